@@ -370,6 +370,8 @@ impl<W: WorldSpec> Engine<W> {
         let am = &mut self.ms[wid].archs[ai];
         am.preset = true;
         am.ver = av as u64;
+        am.ver_obs = av as u64;
+        am.rem_at_obs = am.removals;
         self.stats.inc("preset_generations");
         rt::h(&[0x94E5, ai as u64, sg as u64, av as u64]);
     }
